@@ -265,6 +265,56 @@ func runC01(c *core.Check) {
 		}
 	}
 
+	// ---- G7 -------------------------------------------------------------------------
+	c.Rule("C01-G7", "K6 must-pass-through", 1, "a historic bucket popped from the aggregator's historic queue (popOldestHistoricBucket, first result, non-nil) is retained (stored into the batch that is marshalled and answered) on every path before the next pop or the marshal call: a popped bucket is never dropped")
+	if fn := need(c, "C01-G7", "internal/aggregator.(*Aggregator).goInsert"); fn != nil {
+		pops := core.CallsTo(fn, "internal/aggregator.(*Aggregator).popOldestHistoricBucket")
+		for i, pop := range pops {
+			key := fmt.Sprintf("internal/aggregator.(*Aggregator).goInsert/popOldestHistoricBucket#%d", i+1)
+			var bucket ssa.Value
+			for _, r := range core.Referrers(pop.Value()) {
+				if ex, ok := r.(*ssa.Extract); ok && ex.Index == 0 {
+					bucket = ex
+				}
+			}
+			if bucket == nil {
+				c.Fail("C01-G7", key, pop.Pos(), "the popped bucket (first result) is discarded")
+				continue
+			}
+			// the nil test on the popped bucket
+			var nonNil *ssa.BasicBlock
+			for _, b := range fn.Blocks {
+				if len(b.Instrs) == 0 {
+					continue
+				}
+				ifi, ok := b.Instrs[len(b.Instrs)-1].(*ssa.If)
+				if !ok {
+					continue
+				}
+				l := core.NormLit(ifi.Cond, true)
+				if l.Op == token.EQL && l.X == bucket && isNilConst(l.Y) {
+					if l.Pol {
+						nonNil = b.Succs[1]
+					} else {
+						nonNil = b.Succs[0]
+					}
+				}
+			}
+			if nonNil == nil {
+				c.Undecided("C01-G7", key, pop.Pos(), "no `bucket == nil` test on the popped bucket found")
+				continue
+			}
+			retained := func(in ssa.Instruction) bool {
+				st, ok := in.(*ssa.Store)
+				return ok && st.Val == bucket
+			}
+			end := or(core.IsCallTo("internal/aggregator.(*Aggregator).rowDataMarshalAppendPositions"), func(in ssa.Instruction) bool { return in == pop.Instr }, core.IsReturn)
+			p := reachFromBlock(nonNil, end, retained)
+			c.Require(p == nil, "C01-G7", key, pop.Pos(), "popped bucket is retained on every path",
+				"a non-nil bucket popped from the historic queue can reach the marshal call / next pop without being stored into the batch (its contributors would never be answered and its rows never inserted): "+pathStr(p))
+		}
+	}
+
 	// ---- G3 -------------------------------------------------------------------------
 	c.Rule("C01-G3", "K1", 3, "sendToClickhouse returns a nil error only under resp.StatusCode == 200 or khAddr == \"\"; other returns carry a provably non-nil error")
 	if fn := need(c, "C01-G3", "internal/aggregator.sendToClickhouse"); fn != nil {
